@@ -18,8 +18,14 @@ RULE = ('each case: a fresh table T(A Text, B Int, C Text, D Int, F formula, E e
         'made a second time must update, not add); thorough '
         'adds an exhaustive small scope. A case is non-trivial when a record was added or updated or an argument '
         'error was raised')
-TRUSTED = ['Model/Upsert.v is hand-written; it is compared with the running engine on every generated case '
-           '(resulting table and retValues, evaluated by vm_compute)',
+TRUSTED = ['harness/up2v.py translates BulkAddOrUpdateRecord/AddOrUpdateRecord (useractions.py) to Gallina on every run '
+           '(fail closed); three computed quantities (the dict of lengths, its set, the number of unique require keys) '
+           'and `table = self._engine.tables[table_id]` are pinned by AST equality instead of being translated; the '
+           'translation is validated on every run: the generated functions are evaluated (vm_compute) on every case '
+           'and compared with the running engine',
+           'the opaque environment of the generated code is instantiated by the hand models of table.lookup_records, '
+           'BulkAddRecord (id filling, docactions add) and BulkUpdateRecord (last occurrence, trimming) of '
+           'Model/Upsert.v; these are compared with the running engine on every generated case',
            'column.convert / the lookup-key conversion are an uninterpreted function of the model (theorems hold for '
            'every such function); the harness tabulates it from the running engine for the values of each case',
            'formula columns are recomputed by the engine, not by the action: their cells are not compared after the call']
@@ -27,9 +33,12 @@ ASSUMPTIONS = ['values are None, ints and strings; columns are data columns of t
                'and one empty column (isFormula=True, formula="") that only receives non-blank non-numeric strings '
                '(its type is then guessed as Text) and whose untouched cells are compared modulo None = ""; no '
                'reference/position columns, no trigger formulas; tables are user tables']
-TECHNIQUE = ('Coq refinement proof (accumulator-based model = per-row reference specification) + differential cases '
+TECHNIQUE = ('Coq proof over code translated from source on every run (up2v) bridged to a hand model: generated code = '
+             'structured mirror (by computation) = row-major model = per-row reference specification; + differential cases '
              'against the real engine evaluated by vm_compute + independent Python oracle on the implementation')
-LEVEL_TEXT = ('Kernel-checked theorems, for all tables/arguments/options/conversion functions: the executable model of '
+LEVEL_TEXT = ('Kernel-checked theorems about BulkAddOrUpdateRecord/AddOrUpdateRecord AS REGENERATED from useractions.py on every '
+              'run (C28_code_*: pointwise bridge to the hand model, refinement of the reference, argument errors), and, '
+              'for all tables/arguments/options/conversion functions: the executable model of '
               'BulkAddOrUpdateRecord (lookup on the pre-call table, on_many, add/update flags, allow_empty_require, '
               'accumulated BulkAddRecord + BulkUpdateRecord (last occurrence of a row kept, unchanged entries trimmed), returned id lists) equals a per-row reference '
               'specification, the four argument errors reject without change, and AddOrUpdateRecord agrees with its '
@@ -57,9 +66,14 @@ def regenerate(ctx):
   try:
     text = up2v.translate(os.path.join(core.GRIST, 'useractions.py'))
   except up2v.Untranslatable as e:
+    # no stale translation may stand in: the code-level theorems are not established on this tree
+    core.write_if_changed(os.path.join(core.COQ, 'gen', 'Upsert_gen.v'),
+                          '(* translation failed: %s *)\nDefinition gen_upsert := tt.\nDefinition gen_upsert_single := tt.\n'
+                          % str(e).replace('*', '.'))
     raise core.TieBroken('BulkAddOrUpdateRecord/AddOrUpdateRecord are outside the translated subset: %s' % e)
   core.write_if_changed(os.path.join(core.COQ, 'gen', 'Upsert_gen.v'), text)
   ctx.extra['regenerated'] = 'coq/gen/Upsert_gen.v (gen_upsert, gen_upsert_single) from sandbox/grist/useractions.py'
+  ctx.extra['translated_lines'] = text.count('\n')
 
 
 class Unrepresentable(Exception):
@@ -745,18 +759,31 @@ def correspond(ctx):
               sample={'rows': case['rows'], 'call': [case['bulk'], case['require'], case['col_values'], case['options']],
                       'outcome': list(outcome[:2])})
   ctx._c28 = done
+  ctx.extra['generated_code_evaluations'] = '%d bulk + %d single cases: gen_upsert / gen_upsert_single over oenv_of vs the engine' % (len(bulk), len(single))
   ctx.log('implementation ran on %d cases' % len(done))
-  imports = ['Grist.Model.Upsert', 'Grist.Lib.UpsertPrelude', 'GristGen.Upsert_gen', 'Grist.Proofs.Upsert_bridge']
-  bad = ctx.run_cases('bulk', imports, 'check_bulk', [t for _, t in bulk], shard=100, extra_defs=EXTRA_DEFS)
-  for i in bad[:5]:
-    case, r = done[bulk[i][0]]
-    ctx.broken('correspondence:model of BulkAddOrUpdateRecord differs from the engine',
-               'case %r engine %r table %r' % (public(case), r[3], r[4]))
-  bad = ctx.run_cases('single', imports, 'check_single', [t for _, t in single], shard=100, extra_defs=EXTRA_DEFS)
-  for i in bad[:5]:
-    case, r = done[single[i][0]]
-    ctx.broken('correspondence:model of AddOrUpdateRecord differs from the engine',
-               'case %r engine %r table %r' % (public(case), r[3], r[4]))
+  def evaluate(with_gen):
+    if with_gen:
+      imports, defs, tag = (['Grist.Model.Upsert', 'Grist.Lib.UpsertPrelude', 'GristGen.Upsert_gen',
+                             'Grist.Proofs.Upsert_bridge'], EXTRA_DEFS, '')
+    else:          # the generated code / its bridge do not compile on this tree: still compare the hand model
+      imports, tag = ['Grist.Model.Upsert'], 'm'
+      defs = EXTRA_DEFS.replace(' && judge_bulk (gen_upsert (oenv_of e) t req cv o) exp', '') \
+                       .replace(' && judge_single (gen_upsert_single (oenv_of e) t req cv o) exp', '')
+    bad = ctx.run_cases('bulk' + tag, imports, 'check_bulk', [t for _, t in bulk], shard=100, extra_defs=defs)
+    for i in bad[:5]:
+      case, r = done[bulk[i][0]]
+      ctx.broken('correspondence:model%s of BulkAddOrUpdateRecord differs from the engine' % (' or generated code' if with_gen else ''),
+                 'case %r engine %r table %r' % (public(case), r[3], r[4]))
+    bad = ctx.run_cases('single' + tag, imports, 'check_single', [t for _, t in single], shard=100, extra_defs=defs)
+    for i in bad[:5]:
+      case, r = done[single[i][0]]
+      ctx.broken('correspondence:model%s of AddOrUpdateRecord differs from the engine' % (' or generated code' if with_gen else ''),
+                 'case %r engine %r table %r' % (public(case), r[3], r[4]))
+  try:
+    evaluate(True)
+  except core.TieBroken as e:
+    ctx.broken('correspondence:generated code cannot be evaluated', str(e)[-600:])
+    evaluate(False)
 
 
 def case_key(case):
